@@ -41,6 +41,16 @@ Definition chk_onehot_multi_z (seqs : list (list Z)) (enc : list (list (list Q))
 Definition chk_onehot_multi_s (seqs : list (list String.string)) (enc : list (list (list Q))) (cls : list String.string) : bool :=
   let '(e, c) := one_hot_multi (F:=Q) String.leb seqs in tclose e enc && list_eqb String.eqb c cls.
 
+(* (n,1) column of labels -> (n,k);  (n,m) grid of labels -> (n,m,k) *)
+Definition chk_onehot_col_z (rows : list (list Z)) (enc : list (list Q)) (cls : list Z) : bool :=
+  match one_hot_2d (F:=Q) Z.leb rows with (inl e, c) => mclose e enc && list_eqb Z.eqb c cls | _ => false end.
+Definition chk_onehot_col_s (rows : list (list String.string)) (enc : list (list Q)) (cls : list String.string) : bool :=
+  match one_hot_2d (F:=Q) String.leb rows with (inl e, c) => mclose e enc && list_eqb String.eqb c cls | _ => false end.
+Definition chk_onehot_grid_z (rows : list (list Z)) (enc : list (list (list Q))) (cls : list Z) : bool :=
+  match one_hot_2d (F:=Q) Z.leb rows with (inr e, c) => tclose e enc && list_eqb Z.eqb c cls | _ => false end.
+Definition chk_onehot_grid_s (rows : list (list String.string)) (enc : list (list (list Q))) (cls : list String.string) : bool :=
+  match one_hot_2d (F:=Q) String.leb rows with (inr e, c) => tclose e enc && list_eqb String.eqb c cls | _ => false end.
+
 (* map generators *)
 Definition chk_logistic (n : nat) (r x0 : Q) (obs : list (list Q)) : bool :=
   oclose mclose (logistic_map (F:=Q) n r x0) obs.
